@@ -24,7 +24,11 @@ func init() {
 	// C04 the register machine: the gradient matrix lives in the six number registers below NBASE
 	register("C04", func(c *Ctx) { only(c, ruleC19, "C19.2") })
 	// C08 number encodings: SetNReg's three candidate encodings use disjoint scratch windows (styling mirror)
-	register("C08", func(c *Ctx) { only(c, ruleC01_3, "C01.3") })
+	register("C08", func(c *Ctx) {
+		only(c, ruleC01_3, "C01.3")
+		only(c, ruleC09_3, "C09.3") // C01.3 leans on it
+	})
+	register("C07", func(c *Ctx) { only(c, ruleC09_3, "C09.3") })
 	// C09 colours: the suggested palette's entries, reader side
 	register("C09", func(c *Ctx) {
 		only(c, ruleC13, "C13.2")
@@ -44,7 +48,10 @@ func init() {
 		only(c, ruleC15_6, "C15.6")
 	})
 	// C01 round trip: the reader's side of every number form (value formulas per byte length)
-	register("C01", func(c *Ctx) { only(c, ruleC03_2, "C03.2") })
+	register("C01", func(c *Ctx) {
+		only(c, ruleC03_2, "C03.2")
+		only(c, ruleC09_3, "C09.3") // C01.3 leans on it: the path on which no colour form accepts is unreachable
+	})
 	// C09 colours: every colour-carrying opcode (all ADJ values, the incrementing form) is decoded, and the Encoder's
 	// byte for it is the one the decoder reads back
 	register("C09", func(c *Ctx) {
